@@ -849,6 +849,79 @@ class Item:
         self.rewrite(be, b2s, ";\n    %s = " % acc, "R3-map-fold")
         self.rewrite(fclose, fclose + 1, ";/*@tail*/\n    vx_i = vx_i + 1;\n  }\n  %s }" % acc, "R3-map-fold")
 
+    def _chain_start(self, pos):
+        """start of the postfix chain (idents, `.`, `::`, `?`, call / index groups) that ends right before pos"""
+        j = pos
+        while True:
+            while j > 0 and self.m[j - 1].isspace():
+                j -= 1
+            if j == 0:
+                break
+            ch = self.m[j - 1]
+            if ch in ")]":
+                # jump to the matching opener
+                dep, q = 0, j - 1
+                while q >= 0:
+                    if self.m[q] in ")]":
+                        dep += 1
+                    elif self.m[q] in "([":
+                        dep -= 1
+                        if dep == 0:
+                            break
+                    q -= 1
+                j = q
+            elif ch.isalnum() or ch == "_":
+                while j > 0 and (self.m[j - 1].isalnum() or self.m[j - 1] == "_"):
+                    j -= 1
+            elif ch in ".?":
+                j -= 1
+            elif ch == ":" and j > 1 and self.m[j - 2] == ":":
+                j -= 2
+            else:
+                break
+        while self.text[j].isspace():
+            j += 1
+        return j
+
+    def r3_find_map_expr(self, fn, k):
+        """expression `ITER.find_map(|P| BODY)` (ITER an iterator value; BODY may use captured `&mut` variables: it is no longer a
+        closure afterwards; no `return` / `?` in BODY)  ==>
+        { let mut vx_fm = ITER; let mut vx_r = None; loop { let Some(P) = vx_fm.next() else { break; }; let vx_e = BODY;
+          if vx_e.is_some() { vx_r = vx_e; break; } } vx_r }          (the definition of Iterator::find_map; ITER and BODY stay in place)"""
+        k0, _, bo, end, _ = self.fn_span(fn)
+        hits = list(re.finditer(r"\.\s*find_map\s*\(", self.m[bo:end]))
+        if len(hits) < k:
+            raise Undecided("LOST-ANCHOR: R3 find-map-expr #%d in fn %s of %s" % (k, fn, self.where()))
+        h = hits[k - 1]
+        par = bo + h.end() - 1
+        p, bs, be, close = self._closure_after(par)
+        if re.search(r"\breturn\b|\?", self.m[bs:be]):
+            raise Undecided("R3 find-map-expr: the closure body leaves early (return / ?) at %s:%d" % (self.relpath, self.line_of(bs)))
+        s0 = self._chain_start(bo + h.start())
+        sfx = "" if k == 1 else str(k)
+        self.rewrite(s0, s0, "{ let mut vx_fm%s = " % sfx, "R3-find-map-expr")
+        self.rewrite(bo + h.start(), bs, ";\n  let mut vx_r%s = None;/*@pre*/\n  loop\n  /*@loop*/\n  {\n    let Some(%s) = vx_fm%s.next() else { break; };/*@body*/\n    let vx_e%s = " % (sfx, p, sfx, sfx), "R3-find-map-expr")
+        self.rewrite(be, close + 1, ";\n    if vx_e%s.is_some() { vx_r%s = vx_e%s; break; }/*@tail*/\n  }\n  vx_r%s }" % (sfx, sfx, sfx, sfx), "R3-find-map-expr")
+
+    def r3_or_else_expr(self, fn, k):
+        """expression `X.or_else(|| BODY)` (X a postfix chain)  ==>  { let vx_oe = X; if vx_oe.is_some() { vx_oe } else { BODY } }
+        (the definition of Option::or_else; X and BODY stay in place, BODY is no longer a closure)"""
+        k0, _, bo, end, _ = self.fn_span(fn)
+        hits = list(re.finditer(r"\.\s*or_else\s*\(\s*\|\s*\|\s*", self.m[bo:end]))
+        if len(hits) < k:
+            raise Undecided("LOST-ANCHOR: R3 or-else-expr #%d in fn %s of %s" % (k, fn, self.where()))
+        h = hits[k - 1]
+        par = bo + h.start() + self.m[bo + h.start():bo + h.end()].index("(")
+        close = match_brace(self.m, par, "(", ")")
+        bs = bo + h.end()
+        if re.search(r"\breturn\b", self.m[bs:close]):
+            raise Undecided("R3 or-else-expr: the closure body returns early")
+        s0 = self._chain_start(bo + h.start())
+        sfx = "" if k == 1 else str(k)
+        self.rewrite(s0, s0, "{ let vx_oe%s = " % sfx, "R3-or-else-expr")
+        self.rewrite(bo + h.start(), bs, ";\n  if vx_oe%s.is_some() { vx_oe%s } else { " % (sfx, sfx), "R3-or-else-expr")
+        self.rewrite(close, close + 1, " } }", "R3-or-else-expr")
+
     def r3_position_expr(self, fn, k):
         """tail expression `RECV.iter().position(|P| BODY)`  ==>  index loop returning the first index whose BODY holds:
         { let mut vx_pos = None; let mut vx_i = 0; while vx_i < RECV.len() { let P = &RECV[vx_i]; let vx_b = BODY;
